@@ -8,12 +8,19 @@ Search / oracle: the same structured sweep, much larger, against independent ora
         neighbours for the double->single rounding, structured operand pairs for the FPNum arithmetic, exhaustive small
         fixed-point formats.  A discrepancy that matches a `known` entry of known_findings/C12.json prints KNOWN-FINDING,
         anything else is a VIOLATION whose replay file names the op and its arguments (./check --replay re-runs it)."""
-import json, math, random
+import json, math, random, time
 import common
-from common import zlit, blit
+from common import blit
 from props import c12_ops as ops
 from props import c12_gen as gen
 from props.c12_ops import FMT, BITS
+
+def zlit(n):
+    """Z literal; hexadecimal for large values (Coq parses long decimal literals slowly)"""
+    n = int(n)
+    t = ('0x%x' % abs(n)) if abs(n) >= 4096 else '%d' % abs(n)
+    return t if n >= 0 else '(-%s)' % t
+
 
 NEEDED = ['IntegerHelper_signed_to_c2', 'IntegerHelper_c2_to_signed', 'signExtend']
 FIDX = {'hp': 0, 'sp': 1, 'dp': 2}
@@ -107,8 +114,10 @@ def oracle_sweep(ctx, H, rng):
         for which in ('add', 'sub', 'mult'):
             sw.run('fx', (which, s_, iw, fw, a, b), (which, s_, iw, fw, a % 64, b % 64))
     for (s_, iw, fw) in gen.fx_formats_small(q) + gen.FX_BIG:
-        for v in range(-(1 << (iw - 1)) - 1 if s_ else 0, (1 << (iw - 1)) + 1):
-            if abs(v) > 40 and v % 97: continue
+        hi = 1 << (iw - 1)
+        vs = set(range(0, min(hi, 20) + 1)) | {hi - 1, hi, hi // 2, hi // 3}
+        if s_: vs |= {-v for v in vs}
+        for v in sorted(vs):
             r = ops.call(H, 'fx_from_int', (s_, iw, fw, v))
             if isinstance(r[0], str) and r[0].startswith('raise Exception'): continue      # documented range errors
             sw.run('fx_from_int', (s_, iw, fw, v), (s_, iw, fw, v))
@@ -162,6 +171,9 @@ def oracle_sweep(ctx, H, rng):
             xh = x.hex() if not math.isnan(x) else 'nan'
             sw.run('fph_encode', (fmt, xh), (fmt, xh))
             sw.run('fph_encode_parts', (fmt, xh))
+            if not (math.isnan(x) or math.isinf(x)):
+                sw.run('fp_to_parts', (xh,), ('parts', xh))
+                sw.run('sp_to_fixed_point_parts', (xh,))
             if fmt == 'sp' and not math.isnan(x) and abs(x) < 3.4028235677973366e38:
                 sw.run('fph_stored', (xh,))
         ctx.log('%s encodings done: %d evaluations so far' % (fmt, sw.n))
@@ -186,7 +198,7 @@ def pf_lit(x):
     if math.isnan(x): return 'PNaN'
     if math.isinf(x): return '(PInf %s)' % blit(x < 0)
     n, d = abs(x).as_integer_ratio()
-    return '(PFin %s %d %d)' % (blit(math.copysign(1, x) < 0), n, d.bit_length() - 1)
+    return '(PFin %s %s %d)' % (blit(math.copysign(1, x) < 0), zlit(n), d.bit_length() - 1)
 
 def t3(t): return '(%s, %s, %s)' % tuple(zlit(x) for x in t)
 
@@ -218,7 +230,7 @@ def coq_tie(ctx, H, rng, probes):
         def r(which):
             A = FX.fromRawValue(s_, iw, fw, a); B = FX.fromRawValue(s_, iw, fw, b)
             return getattr(A, which)(B).v
-        add('fx', 'chk_fx', '(%d, %d, %d, %d, %d, %s, %s, %s)' % (s_, iw, fw, a, b, zlit(exc(lambda: r('add'))), zlit(exc(lambda: r('sub'))), zlit(exc(lambda: r('mult')))),
+        add('fx', 'chk_fx', '(%d, %d, %d, %s, %s, %s, %s, %s)' % (s_, iw, fw, zlit(a), zlit(b), zlit(exc(lambda: r('add'))), zlit(exc(lambda: r('sub'))), zlit(exc(lambda: r('mult')))),
             ('fx', s_, iw, fw, a, b))
     for (s_, iw, fw) in [(1, 3, 4), (0, 3, 4), (1, 16, 16), (1, 1, 0), (0, 1, 2), (1, 0, 3)]:
         for v in (0, 1, -1, 2, 4, 5, -4, -5, 1 << 15, (1 << 15) + 1):
@@ -236,25 +248,25 @@ def coq_tie(ctx, H, rng, probes):
     # patterns
     for fmt in ('hp', 'sp', 'dp'):
         k = FIDX[fmt]
-        pats = gen.tie_patterns(fmt, rng, 300 * n_small)
+        pats = gen.tie_patterns(fmt, rng, 260 * n_small)
         for v in pats:
             sem = getattr(FP, 'unpack_ieee754_%s_parts' % fmt)(v)
             pk = getattr(FP, 'pack_ieee754_%s_parts' % fmt)(*sem)
             hsem = getattr(F, 'unpack_ieee754_%s_parts' % fmt)(v) if fmt != 'hp' else (v >> 15, sem[1], sem[2])
-            add('pack', 'chk_pack', '(%d, %d, %s, %d, %s)' % (k, v, t3(sem), pk, t3(hsem)), ('pack', fmt, v))
+            add('pack', 'chk_pack', '(%d, %s, %s, %s, %s)' % (k, zlit(v), t3(sem), zlit(pk), t3(hsem)), ('pack', fmt, v))
             n = FP(v, fmt)
-            add('decode', 'chk_decode (%s)' % zlit(probes['hp_sube']), '(%d, %d, %s)' % (k, v, fp_lit(ops.comps(n))), ('fpnum_decode', fmt, v))
+            add('decode', 'chk_decode (%s)' % zlit(probes['hp_sube']), '(%d, %s, %s)' % (k, zlit(v), fp_lit(ops.comps(n))), ('fpnum_decode', fmt, v))
             for dst in ('hp', 'sp', 'dp'):
-                if dst == fmt or (v % 5 == 0):
-                    add('convert', 'chk_convert (%s)' % zlit(probes['hp_sube']), '(%d, %s, %d)' % (FIDX[dst], fp_lit(ops.comps(n)), n.convert(dst)), ('convert', fmt, v, dst))
+                if (dst == fmt and v % 2 == 0) or (v % 7 == 0):
+                    add('convert', 'chk_convert (%s)' % zlit(probes['hp_sube']), '(%d, %s, %s)' % (FIDX[dst], fp_lit(ops.comps(n)), zlit(n.convert(dst))), ('convert', fmt, v, dst))
             if fmt != 'hp':
                 x = getattr(F, 'ieee754_to_' + fmt)(v)
-                add('fph_decode', 'chk_fph_decode', '(%d, %d, %s)' % (k, v, pf_lit(x)), ('fph_decode', fmt, v))
+                add('fph_decode', 'chk_fph_decode', '(%d, %s, %s)' % (k, zlit(v), pf_lit(x)), ('fph_decode', fmt, v))
             x = ops.bits_to_float(fmt, v)
             if fmt == 'dp' or v % 3 == 0:
                 add('of_float', 'chk_of_float', '(%s, %s)' % (pf_lit(x), fp_lit(ops.comps(FP(x)))), ('FPNum(float)', x.hex() if x == x else 'nan'))
         for (s_, e, m) in [(2, 1 << FMT[fmt][0], 1 << FMT[fmt][1]), (-1, -1, -1), (3, -5, (1 << 70) + 3)]:
-            add('pack_any', 'chk_pack_any', '(%d, %s, %s, %s, %d)' % (k, zlit(s_), zlit(e), zlit(m), getattr(FP, 'pack_ieee754_%s_parts' % fmt)(s_, e, m)), ('pack', fmt, s_, e, m))
+            add('pack_any', 'chk_pack_any', '(%d, %s, %s, %s, %s)' % (k, zlit(s_), zlit(e), zlit(m), zlit(getattr(FP, 'pack_ieee754_%s_parts' % fmt)(s_, e, m))), ('pack', fmt, s_, e, m))
     # encodings
     for fmt in ('sp', 'dp'):
         xs = gen.encode_floats(fmt, rng, True)
@@ -262,12 +274,16 @@ def coq_tie(ctx, H, rng, probes):
         if fmt == 'dp': xs = xs + [ops.bits_to_float('dp', v) for v in gen.tie_patterns('dp', rng, 250)]
         for x in xs:
             bits = getattr(F, fmt + '_to_ieee754')(x); parts = getattr(F, fmt + '_to_ieee754_parts')(x)
-            add('encode', 'chk_encode %s' % blit(probes['sp_zero_sign']), '(%d, %s, %d, %s)' % (FIDX[fmt], pf_lit(x), bits, t3(parts)), ('encode', fmt, x.hex() if x == x else 'nan'))
+            if not (math.isnan(x) or math.isinf(x) or x == 0):
+                ps, pe, pm = F.fp_to_parts(x)
+                pn, pd = pm.as_integer_ratio()
+                add('parts', 'chk_parts', '(%s, %d, %s, %s, %d)' % (pf_lit(x), ps, zlit(pe), zlit(pn), pd.bit_length() - 1), ('fp_to_parts', x.hex()))
+            add('encode', 'chk_encode %s' % blit(probes['sp_zero_sign']), '(%d, %s, %s, %s)' % (FIDX[fmt], pf_lit(x), zlit(bits), t3(parts)), ('encode', fmt, x.hex() if x == x else 'nan'))
     # arithmetic
     pool = gen.arith_pool(rng, True)
     pairs = [(a, b) for a in pool for b in pool]
     rng.shuffle(pairs)
-    for (da, db) in pairs[:300 * n_small]:
+    for (da, db) in pairs[:220 * n_small]:
         a, b = ops.mk_fpnum(H, da), ops.mk_fpnum(H, db)
         add('arith', 'chk_arith', '(%s, %s, %s, %s, %s, %s)' % (fp_lit(ops.comps(a)), fp_lit(ops.comps(b)), fp_lit(ops.comps(a.add(b))), fp_lit(ops.comps(a.sub(b))),
                                                             fp_lit(ops.comps(a.mul(b))), zlit(a.compare(b))), ('arith', da, db))
@@ -320,8 +336,10 @@ def run(ctx):
                        'oracle (struct / Fraction / int arithmetic) plus the cases compared with model and spec inside Coq; a case is distinct by '
                        '(op, format, sign, exponent field, mantissa bit-length and low bits) for patterns, by (op, width, value) for integers, by the '
                        'operand pair for arithmetic; all are non-trivial (each calls the implementation on a legal argument)')
+    T = {}; t0 = time.time()
     missing = ctx.regen(NEEDED)
     r = ctx.prove(['Properties/C12.v'])
+    T['regen+prove'] = round(time.time() - t0, 1); t0 = time.time()
     H = common.quiet_import().helper
     rng = random.Random(ctx.seed)
     with common.quiet():
@@ -331,6 +349,7 @@ def run(ctx):
     with common.quiet():
         sw = oracle_sweep(ctx, H, rng)
     nviol = sw.report()
+    T['oracle_sweep'] = round(time.time() - t0, 1); t0 = time.time()
     ctx.sample({'op': 'fpnum_round_trip', 'args': ['dp', 0x4005BF0A89F1B0DD], 'result': list(ops.call(H, 'fpnum_round_trip', ('dp', 0x4005BF0A89F1B0DD)))})
     ctx.sample({'op': 'fph_encode', 'args': ['sp', (2.0 ** -150).hex()], 'result': list(ops.call(H, 'fph_encode', ('sp', (2.0 ** -150).hex())))})
     ctx.sample({'op': 'fpnum_arith', 'args': ['add', ['sp', 0xC49A6333], ['dp', 1]], 'result': list(ops.call(H, 'fpnum_arith', ('add', ['sp', 0xC49A6333], ['dp', 1])))})
@@ -356,6 +375,9 @@ def run(ctx):
                 tie_bad.append({'what': 'Coq Spec column disagrees with the implementation but the Python oracle did not report it', 'family': name, 'case': desc})
             else:
                 tie_bad.append({'what': 'hand model disagrees with the implementation (correspondence broken)', 'family': name, 'case': desc})
+    T['coq_correspondence'] = round(time.time() - t0, 1)
+    ctx.notes['timing_s'] = T
+    ctx.log('timing', T)
     # 3. verdict
     if nviol == 0:
         if missing:
